@@ -80,7 +80,8 @@ def main():
     quick = a.tier == "quick"
     TIMEOUT = 60000 if quick else 300000
     run = Run("C19", a.tier, "translation_validation")
-    requests = ["energy2", "amp2_ph", "re_res2", "ovl_pre2", "m_phph2", "mvp_ph1", "singles1", "dens2"]
+    requests = ["energy2", "amp2_ph", "re_res2", "ovl_pre2", "m_phph2", "mvp_ph1", "singles1", "dens2",
+                "wf_products"]
     if not quick:
         requests += ["energy3", "amp2_pphh", "m_ip_hphh1", "tm_ph2", "itmd_t2_2"]
     if a.replay:
